@@ -41,7 +41,7 @@ FAMILY = {
                 extra_mc=["MC_ConcDep.cfg"], extra_mc_thorough=["MC_ConcFault.cfg"],
                 extra_gen=["MC_GenConcDep.cfg", "MC_GenConc3.cfg", "MC_GenConcFault.cfg"]),
     "C12": dict(mc="MC_Hooks", gen="MC_GenHooks", quick=220, thorough=2500, drivers=["secret", "memory", "configmap"],
-                sweep=(4, 40)),
+                sweep=(10, 60)),
 }
 
 
@@ -153,7 +153,7 @@ KF_RELEVANT = {
     "KF-L14-hook-create-failure-skips-policy-deletes": {"C12_DeletedByPolicy"},
     "KF-L22-atomic-rollback-races-with-upgrade": {"C09_Quiescent", "C01_OneDeployed", "C01_Success", "C02_Success",
                                                   "C03_AtomicUpgrade"},
-    "KF-L1-replace-keeps-older-deployed": {"C01_OneDeployed", "C01_Success"},
+    "KF-L1-replace-keeps-older-deployed": {"C01_OneDeployed", "C01_Success", "C02_Success"},
     "KF-L15-atomic-rollback-ignores-history-max": {"C01_Prune"},
     "KF-L5-obsolete-resource-errors-swallowed": {"C03_Error"},
     "KF-L3-rollback-hook-failure-leaves-pending": {"C03_Failed", "C03_AtomicUpgrade"},
@@ -398,25 +398,33 @@ def run(pid, tier, seed, replay=None):
         nb = fam["sweep"][0 if tier == "quick" else 1]
         bysid0 = {s_["id"]: s_ for s_ in scs}
         sweeps = []
+        cands = {}
         for sid, evs in traces:
             sc = bysid0[sid]
             ops = [st for st in sc["steps"] if "op" in st]
             if not ops or any(st.get("fault") or st.get("crash") for st in ops) or ops[-1]["op"] == "uninstall":
                 continue
-            if ops[-1]["flags"].get("dryRun"):
+            if ops[-1]["flags"].get("dryRun") or ops[-1]["flags"].get("dryRunOption"):
                 continue
             ends = [e for e in evs if e["ev"] == "end"]
             if not ends or ends[-1]["calls"] < 3:
                 continue
-            for k in range(1, ends[-1]["calls"] + 1):
+            # one base per distinct (operation, flags, chart, history length): spread the sweep over flag combinations
+            sig = (ops[-1]["op"], ops[-1].get("chart", ""), json.dumps({k: v for k, v in ops[-1]["flags"].items() if v}, sort_keys=True))
+            cands.setdefault(sig, []).append((ends[-1]["calls"], sid))
+        order = sorted(cands, key=lambda g: (-len(json.loads(g[2])), g))     # most flags first
+        rnd = random.Random(seed)
+        rnd.shuffle(order)
+        order.sort(key=lambda g: -len(json.loads(g[2])))
+        for sig in order[:nb]:
+            calls, sid = max(cands[sig])
+            sc = bysid0[sid]
+            for k in range(1, calls + 1):
                 c = json.loads(json.dumps(sc))
                 c["id"] = "%s_f%d" % (sid, k)
                 last = [st for st in c["steps"] if "op" in st][-1]
                 last["fault"] = k
                 sweeps.append(c)
-            nb -= 1
-            if nb <= 0:
-                break
         if sweeps:
             tf2, _ = vlib.run_scenarios(hv, sweeps, d, "sweep")
             ev2 = vlib.load_trace(tf2)
